@@ -26,6 +26,12 @@ func offIn(s, buf []byte) int64 {
 	return int64(ps - pb)
 }
 
+// rawExtCount is len(h.Extensions), whatever the X flag says.
+func rawExtCount(h *rtp.Header) int {
+	ids, _ := rtp.VerifExtensions(h)
+	return len(ids)
+}
+
 // writeLocsGets writes `<list int locs> <list u8 ids> <list obytes gets>` for a decoded header.
 func writeLocsGets(t *Toks, h *rtp.Header, wire []byte) {
 	if h.Extension {
@@ -61,7 +67,7 @@ func observeRecv(t *Toks, h *rtp.Header, p *rtp.Packet, buf []byte) {
 	} else if try(func() {
 		var o Toks
 		writeHeaderObs(&o, h)
-		o.Nat(n)
+		o.Nat(n).Nat(rawExtCount(h))
 		writeLocsGets(&o, h, wire)
 		t.Ok().Tok(o.String())
 	}) {
@@ -75,7 +81,7 @@ func observeRecv(t *Toks, h *rtp.Header, p *rtp.Packet, buf []byte) {
 	} else if try(func() {
 		var o Toks
 		writePacketObs(&o, p)
-		o.I64(offIn(p.Payload, wire))
+		o.Nat(rawExtCount(&p.Header)).I64(offIn(p.Payload, wire))
 		writeLocsGets(&o, &p.Header, wire)
 		t.Ok().Tok(o.String())
 	}) {
